@@ -69,8 +69,9 @@ func (k Keeper) UpdateRewardPool(ctx context.Context, gas []*goattypes.GasReques
 func (k Keeper) DistributeReward(ctx context.Context) error {
 	sdkctx := sdktypes.UnwrapSDKContext(ctx)
 
-	// the cometbft consensus rule
-	if sdkctx.BlockHeight() < 2 {
+	// the cometbft consensus rule: the first block of a chain has no last commit,
+	// whatever its height is (a chain started from an exported state begins above 1)
+	if sdkctx.BlockHeight() < 2 || len(sdkctx.VoteInfos()) == 0 {
 		return nil
 	}
 
